@@ -46,6 +46,7 @@ type dirResult struct {
 }
 
 type runResult struct {
+	skipped  bool
 	ver      e2eb.Version
 	tc, ts   int
 	setupErr string
@@ -403,6 +404,7 @@ type longDirResult struct {
 }
 
 type longResult struct {
+	skipped  bool
 	ver      e2eb.Version
 	tc, ts   int
 	setupErr string
@@ -644,9 +646,28 @@ func main() {
 		nDown, nUp = 120000, 10000
 	}
 	longCh := make(chan longResult, 1)
-	go func() { longCh <- longRun(longSeed, nDown, nUp) }()
-	results := e2eb.RunParallel(runs, 16, func(i int) runResult { return oneRun(i, seeds[i]) })
+	// case indices: run i -> 2i (serverbound), 2i+1 (clientbound); long run -> 2*runs, 2*runs+1.
+	// With --only (replay / reconfirmation) only the run that produces the wanted case is executed.
+	wantRun := func(i int) bool { return f.Only < 0 || f.Only/2 == i }
+	go func() {
+		if wantRun(runs) {
+			longCh <- longRun(longSeed, nDown, nUp)
+		} else {
+			longCh <- longResult{skipped: true}
+		}
+	}()
+	results := e2eb.RunParallel(runs, 16, func(i int) runResult {
+		if !wantRun(i) {
+			return runResult{skipped: true}
+		}
+		return oneRun(i, seeds[i])
+	})
 	for i, res := range results {
+		if res.skipped {
+			out.Add("skipped", nil, false)
+			out.Add("skipped", nil, false)
+			continue
+		}
 		if res.setupErr != "" {
 			// the player could not be brought to play: nothing to judge, report as a failed observation
 			out.GoViolation(map[string]any{"known": nil, "index": -1, "what": "C15 run could not bring a player to play on the backend", "run": i, "version": res.ver.Name, "client_threshold": res.tc, "backend_threshold": res.ts, "error": res.setupErr})
@@ -659,7 +680,12 @@ func main() {
 		emit(out, i, res, true, res.up, res.upTable)
 		emit(out, i, res, false, res.down, res.dnTable)
 	}
-	emitLong(out, <-longCh)
+	if lr := <-longCh; lr.skipped {
+		out.Add("skipped", nil, false)
+		out.Add("skipped", nil, false)
+	} else {
+		emitLong(out, lr)
+	}
 	out.Finish()
 }
 
